@@ -1359,6 +1359,13 @@ class Module(ABC):
             key = parameter["key"]
             inds = parameter["indices"]
             set_param = parameter["val"]
+            # Indices of synapse states are global edge indices, but synaptic states
+            # are stored per synapse type (as in `get_all_parameters`).
+            if key in self.base.synapse_state_names:
+                synapse_inds = self.base.edges.groupby("type").rank()["global_edge_index"]
+                synapse_inds = (synapse_inds.astype(int) - 1).to_numpy()
+                inds = synapse_inds[inds]
+
             if key in states:  # Only initial states, not parameters.
                 # `inds` is of shape `(num_params, num_comps_per_param)`.
                 # `set_param` is of shape `(num_params,)`
@@ -1366,7 +1373,9 @@ class Module(ABC):
                 # `.set()` to work. This is done with `[:, None]`.
                 # Groups of unequal size are padded with `-1` (see `make_trainable`).
                 # Padded entries are moved out of bounds such that they are dropped.
-                inds = jnp.where(jnp.asarray(inds) < 0, len(states[key]), inds)
+                inds = jnp.where(
+                    jnp.asarray(parameter["indices"]) < 0, len(states[key]), inds
+                )
                 states[key] = states[key].at[inds].set(set_param[:, None], mode="drop")
 
         # Add to the states the initial current through every channel.
